@@ -560,3 +560,86 @@ TECHNIQUE = "symbolic execution of rustc MIR -> SMT (cvc5 + z3) with call-site o
 BOUNDS = dict(BOUNDS, m5="build_filter_data: 1 transaction, 0..2 inputs, 0..2 outputs; builder scenarios on a 5-block chain with a detached block", m6="the three light-client proof servers: coroutine bodies executed up to the point where the last block is loaded")
 LEVEL_TEXT = LEVEL_TEXT + " m5: block filter covers every output and spent-input lock/type script hash, filter hash = H(parent filter hash || H(data)), stored under the block hash, the builder chains each (re)built main-chain block from its parent's filter hash also after a reorganisation; m6: light-client proofs are assembled only for a last_hash on the snapshot's main chain, otherwise the tip state is sent."
 LEVEL_NOTE = "Claim = header-digest algebra, chain-root MMR along an attached branch, VerifiableHeader, block-filter construction and hash chain, light-client main-chain guard. MMR node arithmetic (third-party), proof contents, GCS encoding: outside."
+
+
+def m7_block_extension_verifier(S):
+    """`BlockExtensionVerifier::verify` (the contextual check every attached block passes): accepted iff
+    (no extra field and the chain-root rule not yet active) or (exactly one extra field that is a well-formed extension of 1..=96 bytes and, once the chain-root rule is active --
+    judged on the PARENT's epoch --, of at least 32 bytes whose first 32 bytes equal `calc_mmr_hash` of the root of the chain-root MMR handed to the verifier), and in every case the
+    header's extra hash equals the hash recomputed from the block; a failing MMR read is an error"""
+    from mir2smt.srcinfo import field_index
+    from mir2smt.session_extra import extra_session
+    ob = "C19.m7"
+    S0 = S
+    S = extra_session(S0, ["ckb-constant", "ckb-occupied-capacity-core", "ckb-types", "ckb-verification-contextual"])
+    try:
+        _m7_body(S, ob)
+    finally:
+        S.finish()
+
+
+def _m7_body(S, ob):
+    from mir2smt.srcinfo import field_index
+    f = [x for x in S.prog.funcs if x.kind == "fn" and x.short == "verify" and "contextual_block_verifier.rs" in x.name and "{closure" not in x.name and len(x.params) == 2 and "BlockExtensionVerifier" in x.params[0][1]]
+    if len(f) != 1:
+        raise Inconclusive(f"BlockExtensionVerifier::verify: {len(f)} candidates")
+    ctx = S.ctx()
+    ctx.uninterpreted_unknown_calls = True
+    cnt, ln = ctx.int("extra_fields_count", "usize"), ctx.int("extension_len", "usize")
+    active, has_ext, root_ok, root_ne, extra_ne = ctx.bool("chain_root_rule_active"), ctx.bool("extension_decodes"), ctx.bool("mmr_root_readable"), ctx.bool("root_hash_differs"), ctx.bool("extra_hash_differs")
+    obs = {"active_on": [], "root_of": [], "cmp": [], "slice": []}
+
+    def nmv(ex, v):
+        v = deref(ex, v)
+        if isinstance(v, AggV):
+            return "(" + ",".join(nmv(ex, x) for x in v.fields) + ")"
+        if isinstance(v, IntV):
+            return str(v.t)
+        return getattr(v, "name", None) or type(v).__name__
+    call = lambda t_: (lambda ex, c, a, d: OpaqueV(t_ + "(" + ",".join(nmv(ex, x) for x in a) + ")", d))
+
+    def ne(ex, c, a, d):
+        x, y = nmv(ex, a[0]), nmv(ex, a[1])
+        obs["cmp"].append((x, y))
+        return root_ne if "mmr_hash" in x + y else extra_ne
+    fi = field_index("verification/contextual/src/contextual_block_verifier.rs", "BlockExtensionVerifier")
+    ctx.env = list(E.LOGGING_OFF) + [
+        (E.rx(r"BlockView::data$"), call("data")),
+        (E.rx(r"Block::count_extra_fields$"), lambda ex, c, a, d: cnt),
+        (E.rx(r"<Arc<Consensus> as Deref>::deref$"), lambda ex, c, a, d: ex.ctx.ref_to(OpaqueV("consensus", "Consensus"))),
+        (E.rx(r"HeaderView::epoch$"), call("epoch")),
+        (E.rx(r"EpochNumberWithFraction::number$"), call("number")),
+        (E.rx(r"Consensus::rfc0044_active$"), lambda ex, c, a, d: (obs["active_on"].append(nmv(ex, a[1])), active)[1]),
+        (E.rx(r"BlockView::extension$"), lambda ex, c, a, d: mk_option(has_ext.t, OpaqueV("extension", "Bytes"), d)),
+        (E.rx(r"packed::Bytes::is_empty$|^Bytes::is_empty$"), lambda ex, c, a, d: BoolV(T.eq(ln.t, 0))),
+        (E.rx(r"packed::Bytes::len$|^Bytes::len$"), lambda ex, c, a, d: ln),
+        (E.rx(r"MMR::<.*>::get_root$"), lambda ex, c, a, d: (obs["root_of"].append(nmv(ex, a[0])), mk_result(root_ok.t, OpaqueV("root_of(" + nmv(ex, a[0]) + ")", "HeaderDigest"), OpaqueV("mmr_err", "Error"), d))[1]),
+        (E.rx(r"InternalErrorKind::other"), E.opaque_call()),
+        (E.rx(r"HeaderDigest>?::calc_mmr_hash$"), call("mmr_hash")),
+        (E.rx(r"Bytes::raw_data$"), call("raw")),
+        (E.rx(r"Bytes::slice::<"), lambda ex, c, a, d: (obs["slice"].append((nmv(ex, a[0]), nmv(ex, a[1]))), OpaqueV("slice(" + nmv(ex, a[0]) + "," + nmv(ex, a[1]) + ")", d))[1]),
+        (E.rx(r"Entity>::new_unchecked$"), lambda ex, c, a, d: OpaqueV(nmv(ex, a[0]), d)),
+        (E.rx(r"Byte32 as PartialEq>::ne$"), ne),
+        (E.rx(r"BlockView::calc_extra_hash$"), call("calc_extra")),
+        (E.rx(r"ExtraHashView::extra_hash$"), call("extra_hash_of")),
+        (E.rx(r"BlockView::extra_hash$"), call("header_extra_hash")),
+        (E.rx(r"BlockErrorKind as Into<.*>>::into$"), lambda ex, c, a, d: OpaqueV("block_error", d)),
+    ]
+    me = AggV(tuple(ctx.ref_to(OpaqueV(k, "?")) for k, _ in sorted(fi.items(), key=lambda kv: kv[1])), "BlockExtensionVerifier")
+    ps = S.run(ctx, f[0], [ctx.ref_to(me), ctx.ref_to(OpaqueV("block", "BlockView"))])
+    S.prove(ctx, ob, "no_panic", [], T.not_(cond_of(panics(ps))))
+    accept = T.or_(*[T.and_(p.cond(), (p.value.disc == 0) if isinstance(p.value.disc, int) else T.eq(p.value.disc, 0)) for p in returns(ps) if isinstance(p.value, EnumV)])
+    one_ok = T.and_(T.eq(cnt.t, 1), has_ext.t, T.ge(ln.t, 1), T.le(ln.t, 96), T.or_(T.not_(active.t), T.and_(T.ge(ln.t, 32), root_ok.t, T.not_(root_ne.t))))
+    rule = T.and_(T.or_(T.and_(T.eq(cnt.t, 0), T.not_(active.t)), one_ok), T.not_(extra_ne.t))
+    S.prove(ctx, ob, "accepted_iff_extension_shape_chain_root_prefix_and_extra_hash_hold", [], T.iff(accept, rule))
+    S.prove(ctx, ob, "chain_root_rule_is_judged_on_the_parents_epoch", [], bool(obs["active_on"] and all(x == "number(epoch(parent))" for x in obs["active_on"])), extra={"note": str(set(obs["active_on"]))})
+    S.prove(ctx, ob, "root_is_read_from_the_mmr_handed_to_the_verifier", [], bool(obs["root_of"] and all(x == "chain_root_mmr" for x in obs["root_of"])), extra={"note": str(set(obs["root_of"]))})
+    rootcmp = {c_ for c_ in obs["cmp"] if "mmr_hash" in c_[0] + c_[1]}
+    S.prove(ctx, ob, "extension_prefix_of_32_bytes_is_compared_with_the_mmr_hash_of_that_root", [], bool(rootcmp and all(sorted(c_)[0].startswith("mmr_hash(root_of(chain_root_mmr))") and "slice(raw(extension)" in sorted(c_)[1] for c_ in rootcmp) and all(b_.replace(" ", "") in ("(32)", "32", "RangeTo(32)", "(32,)") or "32" in b_ for _, b_ in obs["slice"])), extra={"note": str(rootcmp) + str(obs["slice"])})
+    extracmp = {c_ for c_ in obs["cmp"] if "mmr_hash" not in c_[0] + c_[1]}
+    S.prove(ctx, ob, "header_extra_hash_is_compared_with_the_recomputation_from_the_block", [], bool(extracmp == {("extra_hash_of(calc_extra(block))", "header_extra_hash(block)")}), extra={"note": str(extracmp)})
+    S.witness(ctx, ob, "reach_accept_with_chain_root", [], T.and_(accept, active.t))
+    S.witness(ctx, ob, "reach_boundary_96_bytes", [], T.and_(accept, T.eq(ln.t, 96)))
+
+
+OBLIGATIONS = OBLIGATIONS + [m7_block_extension_verifier]
